@@ -568,6 +568,34 @@ func init() {
 			return tuple{uintptr(0), "", 0, false}
 		},
 		"k8s.io/apimachinery/pkg/util/runtime.GetCaller": func(caller *frame, fn *ssa.Function, args []value) value { return "" },
+		"k8s.io/utils/pointer.AllPtrFieldsNil": func(caller *frame, fn *ssa.Function, args []value) value {
+			it := args[0].(iface)
+			if it.t == nil {
+				panic(targetPanic{iface{types.Typ[types.String], "reflect.ValueOf(nil interface) is not valid"}})
+			}
+			t := it.t
+			v := it.v
+			if pt, ok := t.Underlying().(*types.Pointer); ok {
+				p := v.(*value)
+				if p == nil {
+					return true
+				}
+				t, v = pt.Elem(), *p
+			}
+			st, ok := t.Underlying().(*types.Struct)
+			if !ok {
+				panic(engineTrap{msg: "AllPtrFieldsNil on a non-struct"})
+			}
+			s := v.(structure)
+			for k := 0; k < st.NumFields(); k++ {
+				if _, isPtr := st.Field(k).Type().Underlying().(*types.Pointer); isPtr {
+					if p := s[k].(*value); p != nil {
+						return false
+					}
+				}
+			}
+			return true
+		},
 		"os.Getenv":                        func(caller *frame, fn *ssa.Function, args []value) value { return "" },
 		"sync/atomic.LoadInt32":            atomicLoad,
 		"sync/atomic.LoadInt64":            atomicLoad,
